@@ -127,6 +127,8 @@ class Models(object):
             return getattr(self.np.linalg, name)
         if modname == 'scipy.ndimage' and name == 'convolve1d':
             return self.convolve1d
+        if modname == 'scipy.ndimage' and name == 'correlate1d':
+            return self.correlate1d
         if modname == 'math':
             ns = Namespace('math', pi=Poly.sym('pi'), factorial=self.factorial, sqrt=self.ufunc('sqrt'),
                            log=self.ufunc('log'), exp=self.ufunc('exp'))
@@ -195,7 +197,8 @@ class Models(object):
         np.linalg = Namespace('linalg', pinv=self._hooked('linalg.pinv', self.pinv),
                               inv=self._hooked('linalg.inv', self.pinv),
                               norm=self._hooked('linalg.norm', self.norm),
-                              solve=self._unmodelled('linalg.solve'), lstsq=self._unmodelled('linalg.lstsq'))
+                              solve=self._unmodelled('linalg.solve'), lstsq=self._unmodelled('linalg.lstsq'),
+                              LinAlgError=None)
         np.fft = Namespace('fft', fft=self._hooked('np.fft.fft', self.fft))
         np.random = Namespace('random')
         return np
@@ -998,6 +1001,18 @@ class Models(object):
         res = Arr((n0,) + rest, out)
         inv = [perm.index(k) for k in range(seq.ndim)]
         return res.transpose(inv).copy()
+
+
+def _correlate_from_convolve(self, seq, weights, axis=-1, output=None, mode='reflect', cval=0.0, origin=0):
+    """scipy.ndimage.correlate1d expressed through the convolve1d model:
+    correlate1d(x, w, origin=o) == convolve1d(x, w[::-1], origin=-o - (1 if len(w) is even else 0))"""
+    w = self.np_asarray(weights).ravel()
+    n = w.size
+    o = -_conc_int(origin) - (0 if n % 2 else 1)
+    return self.convolve1d(seq, w[::-1], axis=axis, mode=mode, origin=o)
+
+
+Models.correlate1d = _correlate_from_convolve
 
 
 class _Border(object):
